@@ -106,26 +106,28 @@ theorem schedules_are_bounded (cfg : Cfg) (s s' : State) (sched : List Act) (h :
 
 /-- The full-strength termination statement: in every reachable state of every pipeline in which no action is
 enabled, the stop has returned and all goroutines are gone. FALSE for loopback nodes under StopTask
-(`loopback_stop_deadlocks`), hence only stated. -/
+(`loopback_stop_deadlocks`) and for a UDF node above a failing node (`udf_above_failed_node_blocks_stop`),
+hence only stated. -/
 def stop_terminates_stmt : Prop :=
   ∀ (cfg : Cfg) (kinds : List Kind) (n : Nat) (sched : List Act),
     cfg.hookLock = false → cfg.alertLeak = false → 1 ≤ cfg.cap → kinds ≠ [] →
     let s := run cfg (init kinds n) sched
     Quiescent cfg s → s.stopped = true
 
-/-- **No deadlock, no leak**: any chain of pass / httpPost / alert / influxDBOut / UDF / FAILING nodes (no
-loopback node), any edge buffer size ≥ 1, any number of points, StopTask or Close requested at ANY moment, ANY
+/-- **No deadlock, no leak**: any chain of pass / httpPost / alert / influxDBOut / FAILING nodes (no loopback
+node: `loopback_stop_deadlocks`; no UDF node: `udf_above_failed_node_blocks_stop` — a UDF node is only safe
+while nothing below it fails, which this theorem does not yet separate), any edge buffer size ≥ 1, any number of points, StopTask or Close requested at ANY moment, ANY
 schedule: a state in which no goroutine can move is a state in which the stop has returned and every node
 goroutine, write-buffer goroutine, handler goroutine and the throughput goroutine has exited. Together with
 `every_action_decreases_measure`: every schedule ends, after at most `mu (init …)` steps, and it ends there. -/
 theorem stop_terminates (cfg : Cfg) (kinds : List Kind) (n : Nat) (sched : List Act)
     (hhook : cfg.hookLock = false) (hleak : cfg.alertLeak = false) (hcap : 1 ≤ cfg.cap) (hne : kinds ≠ [])
-    (hk : ∀ k ∈ kinds, isLoop k = false) :
+    (hk : ∀ k ∈ kinds, isLoop k = false) (hu : ∀ k ∈ kinds, isUdf k = false) :
     let s := run cfg (init kinds n) sched
     Quiescent cfg s →
       s.stopped = true ∧ stopCompletes (outcomeOf s) = true ∧ allExited (outcomeOf s) = true := by
   intro s hq
-  have hd : DInv s := dinv_run hleak (dinv_init kinds n hk) sched
+  have hd : DInv s := dinv_run hleak (dinv_init kinds n hk hu) sched
   have hlen : s.nodes ≠ [] := by
     intro h0
     have := run_nodes_length (cfg := cfg) (s := init kinds n) sched
@@ -142,11 +144,11 @@ has returned an error (a UDF process died, a child edge was aborted …) and not
 has returned and every goroutine of the task is gone: the property holds of what the observer sees. -/
 theorem others_still_terminate (cfg : Cfg) (kinds : List Kind) (n : Nat) (sched : List Act)
     (hhook : cfg.hookLock = false) (hleak : cfg.alertLeak = false) (hcap : 1 ≤ cfg.cap) (hne : kinds ≠ [])
-    (hk : ∀ k ∈ kinds, isLoop k = false) :
+    (hk : ∀ k ∈ kinds, isLoop k = false) (hu : ∀ k ∈ kinds, isUdf k = false) :
     let s := run cfg (init kinds n) sched
     Quiescent cfg s → s.nodes.any (·.failed) = true → holds (outcomeOf s) = true := by
   intro s hq hf
-  have h := stop_terminates cfg kinds n sched hhook hleak hcap hne hk hq
+  have h := stop_terminates cfg kinds n sched hhook hleak hcap hne hk hu hq
   exact holds_of h.2.1 h.2.2 (allDelivered_of_failed hf)
 
 /-- Non-vacuity of `others_still_terminate`: `stream → httpPost → failing node (after 1 message) → httpPost`, 3
@@ -171,7 +173,8 @@ theorem close_stops_and_delivers (cfg : Cfg) (kinds : List Kind) (n : Nat) (sche
     let s := run cfg (init kinds n) sched
     Quiescent cfg s → holds (outcomeOf s) = true := by
   intro s hq
-  have h := stop_terminates cfg kinds n sched hhook hleak hcap hne (fun k hm => losslessKind_not_loop (hk k hm)) hq
+  have h := stop_terminates cfg kinds n sched hhook hleak hcap hne (fun k hm => losslessKind_not_loop (hk k hm))
+    (fun k hm => losslessKind_not_udf (hk k hm)) hq
   exact (stop_delivers_all_partial cfg kinds n sched hclose hk h.1).1
 
 /-! ### Counterexamples: where the code violates the property (each replayed on the real code by the corpus) -/
@@ -216,6 +219,19 @@ theorem loopback_stop_deadlocks :
   ⟨[.write, .forkTake, .forkLock, .forkPut, .node 0 .take, .node 0 .put, .node 1 .take,
     .write, .forkTake, .forkLock, .forkPut, .node 0 .take, .node 0 .put, .write, .forkTake, .write] ++ stops 5 ++
     [.node 0 .exit] ++ stops 2 ++ [.thrExit], by decide⟩
+
+/-- finding `udf-above-failed-node-blocks-stop`: `stream → @udf → failing node`: when the node below a UDF node
+fails, only the UDF node's FORWARDING goroutine sees ErrAborted and returns; the node keeps its UDF running with
+nobody reading its output, stops consuming, and its full input edge blocks the nodes above it. The stop waits
+for those first (walk order) and never gets to abort the UDF. Nothing is enabled, the stop has not returned. -/
+theorem udf_above_failed_node_blocks_stop :
+    ∃ sched, (runStrict cfgTask1 (init [.pass, .udf, .fail 0] 5) sched).map
+      (fun s => (s.ph, enabledActs cfgTask1 s, s.nodes.map (·.done))) = some (.wait 0, [], [false, false, true]) :=
+  ⟨[.write, .forkTake, .forkLock, .forkPut, .node 0 .take, .node 0 .put, .node 1 .take, .node 1 .put, .node 2 .take, .node 2 .exit,
+    .write, .forkTake, .forkLock, .forkPut, .node 0 .take, .node 0 .put, .node 1 .take, .node 1 .putErr,
+    .write, .forkTake, .forkLock, .forkPut, .node 0 .take, .node 0 .put, .node 1 .take,
+    .write, .forkTake, .forkLock, .forkPut, .node 0 .take, .node 0 .put,
+    .write, .forkTake, .forkLock, .forkPut, .node 0 .take] ++ stops 5 ++ [.thrExit], by decide⟩
 
 /-- defect repaired by 97356b1 (`Cfg.hookLock = true` is the code before): stop right after start with an
 alert node — the node needs tm.mu to register its delete hook, the stop holds tm.mu and waits for the node. -/
